@@ -4,7 +4,7 @@
    All theorems quantify over every lookup function [get] (every graph, of any size) and every
    maximum depth. *)
 From Coq Require Import List NArith Bool Arith.
-From Scalibr Require Import Symlink.PathSeg Symlink.PathSegProofs Symlink.Model Symlink.Proofs Symlink.LoadProofs.
+From Scalibr Require Import Symlink.PathSeg Symlink.PathSegProofs Symlink.Model Symlink.Proofs Symlink.LoadProofs Symlink.OracleProofs.
 Import ListNotations.
 
 Section Statements.
@@ -96,6 +96,15 @@ Section Statements.
     | WLong => resolve peqb get n maxd = RCycle \/ resolve peqb get n maxd = RDepth
     end.
   Proof. intros n maxd Hc. exact (resolve_agrees_with_walk_lemma path peqb peqb_spec get Hc n maxd). Qed.
+  (* bounded work: the instrumented loop returns the same result, follows at most maxd+1 hops (exactly
+     maxd+1 when it gives up with a depth error, exactly the length of the chain when it answers) and
+     never makes more slow-pointer lookups than hops *)
+  Theorem resolve_fuel_exact : forall n maxd,
+    let '(r, hops, slow_lookups) := resolve_i peqb get n maxd in
+    r = resolve peqb get n maxd /\ hops <= S maxd /\ slow_lookups <= hops /\
+    (r = RDepth -> hops = S maxd) /\
+    (forall t, r = ROk t -> chain get n hops = Some t /\ hops <= maxd).
+  Proof. exact (resolve_fuel_exact_lemma path peqb peqb_spec get). Qed.
 End Statements.
 
 Print Assumptions resolve_sound.
@@ -111,6 +120,7 @@ Print Assumptions stat_sound.
 Print Assumptions stat_deleted.
 Print Assumptions open_sound.
 Print Assumptions resolve_agrees_with_walk.
+Print Assumptions resolve_fuel_exact.
 
 (* the sentence as written fails at the boundary: a dangling link under max depth 0 needs hop 1 =
    max+1 to find out that the target is missing, and answers not-exist instead of a depth error *)
@@ -122,6 +132,33 @@ Theorem resolve_strict_refuted :
     ~ strict_property nat get n maxd (resolve Nat.eqb get n maxd).
 Proof. exact resolve_strict_refuted_lemma. Qed.
 Print Assumptions resolve_strict_refuted.
+
+(* ---- the executable oracle of the harness ---- *)
+(* What a verdict of s_expect means, in the declarative vocabulary of the theorems above, for the
+   lookup function [sget t] induced by the oracle's own table t (any table whose plain entries sit
+   under their own path; s_table_wf: every table the harness images produce is such). *)
+Theorem s_expect_means : forall t p d,
+  stable_wf t ->
+  match s_expect t p d with
+  | XNotFound => sget t p = None \/ exists n, sget t p = Some n /\ verdict_means t n d XNotFound
+  | XNotOk => slookup t p = Some SEscape \/ exists n, sget t p = Some n /\ verdict_means t n d XNotOk
+  | x => exists n, sget t p = Some n /\ verdict_means t n d x
+  end.
+Proof. intros t p d H. exact (s_expect_means_lemma t H p d). Qed.
+Print Assumptions s_expect_means.
+
+(* ... and the oracle accepts what the (proved) resolver answers on that lookup function: the oracle
+   and the theorems speak about the same specification *)
+Theorem oracle_accepts_resolver : forall t p d,
+  stable_wf t ->
+  stat_meets false (s_expect t p d) (obs_of (stat path_eqb (sget t) p d)) = true /\
+  open_meets false (s_expect t p d) (obs_of (open path_eqb (sget t) p d)) = true.
+Proof. intros t p d H. exact (oracle_accepts_resolver_lemma t H p d). Qed.
+Print Assumptions oracle_accepts_resolver.
+
+Theorem s_table_wf : forall img i, stable_wf (s_table img i).
+Proof. exact s_table_wf_lemma. Qed.
+Print Assumptions s_table_wf.
 
 (* ---- load time: symlink.TargetOutsideRoot and handleSymlink ---- *)
 (* with a fresh marker, TargetOutsideRoot is false exactly when the target never climbs above the
@@ -144,8 +181,8 @@ Theorem loaded_links_inside : forall img kept i p n,
   exists e abs t, In e (i_entries img) /\ e_kind e = KLink abs t /\ e_name e = p /\
                   inside (lexical_input (e_name e) abs t) /\
                   n_target n = link_target (e_name e) abs t /\
-                  (abs = false -> canonical (n_target n) = true /\
-                                  clean_rel (lexical_input (e_name e) abs t) = (0, n_target n)).
+                  canonical (n_target n) = true /\
+                  clean_rel (lexical_input (e_name e) abs t) = (0, n_target n).
 Proof. exact loaded_links_inside_lemma. Qed.
 Print Assumptions loaded_links_inside.
 
@@ -160,28 +197,24 @@ Theorem view_get_consistent : forall img kept i, get_consistent (view_get img ke
 Proof. exact view_get_consistent_lemma. Qed.
 Print Assumptions view_get_consistent.
 
-(* absolute link targets are stored as written: a non-canonical spelling of an existing file is
-   not found (known finding abs-target-not-cleaned); canonical spellings are unaffected *)
+(* handleSymlink stores the lexical target, for absolute and relative Linknames alike (since the fix
+   of abs-target-not-cleaned; no domain restriction left) *)
+Theorem stored_target_is_lexical_target : forall name abs t,
+  link_target name abs t = clean_rooted (lexical_input name abs t).
+Proof. reflexivity. Qed.
+Print Assumptions stored_target_is_lexical_target.
+
+(* regression witness of the former finding: /b -> /d/../a resolves to /a *)
 Definition ex_abs_img : image :=
   mkI [ mkE [sA] KFile 0 None;
         mkE [sD; sC] KFile 0 None;
-        mkE [sB] (KLink true [sD; dotdot; sA]) 0 None ] 1 std_marker.   (* /b -> /d/../a *)
+        mkE [sB] (KLink true [sD; dotdot; sA]) 0 None ] 1 std_marker.
 
-Theorem abs_target_not_cleaned_refuted :
+Example abs_target_cleaned_example :
   wf_image ex_abs_img = true /\
   s_expect (s_table ex_abs_img 0) [sB] 6 = XTarget [sA] false /\
-  m_stat ex_abs_img [] 0 [sB] 6 = OErr CNotExist.
+  m_stat ex_abs_img [] 0 [sB] 6 = OOk sA false.
 Proof. vm_compute. repeat split. Qed.
-Print Assumptions abs_target_not_cleaned_refuted.
-
-Theorem canonical_abs_targets_agree_on_D : forall name abs t,
-  (abs = true -> canonical t = true) ->
-  link_target name abs t = clean_rooted (lexical_input name abs t).
-Proof.
-  intros name [|] t H; cbn [link_target lexical_input]; [|reflexivity].
-  symmetry. apply clean_rooted_id_lemma. apply H. reflexivity.
-Qed.
-Print Assumptions canonical_abs_targets_agree_on_D.
 
 (* ---- non-vacuity ---- *)
 (* /a -> b, /b -> d/c, /d/c -> ../k/m, /k/m file: three hops *)
